@@ -101,6 +101,20 @@ fn canary() -> String {
     m.keys().map(|k| k.to_string()).collect::<Vec<_>>().join("")
 }
 
+fn span_fingerprint(ts: proc_macro2::TokenStream, idx: &mut usize, out: &mut String) {
+    use std::fmt::Write;
+    for tt in ts {
+        let sp = tt.span().start();
+        if sp.line != 0 || sp.column != 0 {
+            let _ = write!(out, " {}@{}:{}", *idx, sp.line, sp.column);
+        }
+        *idx += 1;
+        if let proc_macro2::TokenTree::Group(g) = tt {
+            span_fingerprint(g.stream(), idx, out);
+        }
+    }
+}
+
 /// The one place where code under test runs.
 pub fn expand_once(text: &str) -> String {
     let r = std::panic::catch_unwind(|| {
@@ -108,7 +122,18 @@ pub fn expand_once(text: &str) -> String {
             Ok(ts) => ts,
             Err(e) => return format!("LEXERR:{e}"),
         };
-        educe::educe_derive_verif(ts).to_string()
+        let out = educe::educe_derive_verif(ts);
+        let mut text = out.to_string();
+        // spans of the returned tokens that point into the input (generated tokens sit at the call
+        // site, 0:0): token index @ line:column. Part of the outcome: a token stream is text + spans.
+        let mut spans = String::new();
+        let mut idx = 0usize;
+        span_fingerprint(out, &mut idx, &mut spans);
+        if !spans.is_empty() {
+            text.push_str("\n// spans:");
+            text.push_str(&spans);
+        }
+        text
     });
     match r {
         Ok(s) => s,
@@ -286,9 +311,18 @@ pub fn host_main() -> i32 {
                 seams::WORKER_ENTROPY.store(entropy, Ordering::SeqCst);
                 let slot = Arc::new(Slot::new());
                 let s2 = slot.clone();
-                let handle = std::thread::Builder::new()
-                    .name(format!("worker-{id}"))
-                    .stack_size(64 << 20)
+                // the thread's name is part of its environment too: a function of the entropy value
+                let mut b = std::thread::Builder::new().stack_size(64 << 20);
+                if entropy == 0 {
+                    b = b.name("worker".to_string());
+                } else {
+                    let h = crate::prng::mix64(entropy ^ 0x7A3E);
+                    let pool = ["rustc", "main", "worker-3", "educe-7", "pm-17", "tokio-runtime-worker"];
+                    if h % 7 != 6 {
+                        b = b.name(pool[(h % 7) as usize % pool.len()].to_string());
+                    }
+                }
+                let handle = b
                     .spawn(move || worker_main(s2))
                     .expect("spawn worker");
                 // the worker announces itself (`ok <keyfp> <canary>`) and parks
@@ -353,6 +387,10 @@ pub fn host_main() -> i32 {
                     seams::FS_CALLS_WORKER.load(Ordering::SeqCst),
                     seams::NCPU_READS_WORKER.load(Ordering::SeqCst)
                 ));
+            },
+            "N" => {
+                let names = seams::ENV_NAMES.lock().map(|n| n.join(" ")).unwrap_or_default();
+                say(&format!("ok {names}\n"));
             },
             "Q" => {
                 for (_, wk) in std::mem::take(&mut workers) {
